@@ -276,6 +276,8 @@ def rule_r10(chk, rid="C08-R10"):
 
 
 def run(chk):
+    from . import c03 as _c03
+    chk.guard(_c03.rule_r14, chk, rid="C08-R11")
     chk.guard(rule_r10, chk)
     chk.guard(rule_r1, chk)
     chk.guard(rule_r2, chk)
